@@ -105,6 +105,7 @@ PLAN = {
              "compositions and receiver re-observation",
     ),
     "C08": dict(
+        tlaps=dict(quick=["WindowLaws"]),
         gen=dict(quick=[SYS(25)], thorough=[SYS(400)]),
         traces=[("sweep_c08", (1, 2)), ("c08", (1, None)), ("c08all", (None, 1)), ("giant_c08", (None, 1))],
         codecs={"giant_c08": ["iupac", "miupac"]},
@@ -133,6 +134,7 @@ PLAN = {
              "for every K x storage, min/max/sort minimisers, equal-length owned sequences; codecs that are Ord",
     ),
     "C11": dict(
+        tlaps=dict(quick=["WindowLaws"]),
         apalache=dict(thorough=["ChunksInd"]),
         traces=[("sweep_c11", (1, 2)), ("long_c11", (1, 2)), ("c11", (1, None)), ("c11all", (None, 2)), ("giant_c11", (None, 1))],
         codecs={"giant_c11": ["iupac", "miupac"]},
